@@ -362,6 +362,30 @@ def ctor_ops(classes, cls, argmap=None, depth=0):
     return ops, params
 
 
+BINPSD = {
+    ('return 0.5 * (self.evaluate(wavelength_lower) + self.evaluate(wavelength_upper))',): 'trapezoid',
+    ('val_lower = erf((wavelength_lower - self._mean) * self._norm_cdf)',
+     'val_upper = erf((wavelength_upper - self._mean) * self._norm_cdf)',
+     'return 0.5 * (val_upper - val_lower) / self._delta_wavelength'): 'gaussErf',
+    ('return 1.0 / (self._max_wavelength - self._min_wavelength)',): 'constDensity',
+}
+EVALKIND = {
+    ('if self._min_wavelength <= x <= self._max_wavelength:', 'return 1.0 / (self._max_wavelength - self._min_wavelength)',
+     'else:', 'return 0'): 'constStep',
+    ('return self._normalisation * exp(-0.5 * ((x - self._mean) * self._recip_stddev) ** 2)',): 'gauss',
+}
+
+
+def body_key(m):
+    """statements of a method body without cdef declaration blocks"""
+    out = []
+    for ind, text, no in m['body']:
+        if text.startswith('cdef') or re.match(r'^(double|int|Py_ssize_t)\s+[\w, ]+$', text):
+            continue
+        out.append(text)
+    return tuple(out)
+
+
 def extract():
     cp = parse_classes(FILES['profile_base'])
     cp.update(parse_classes(FILES['profile']))
@@ -420,8 +444,14 @@ def extract():
                         geom.append(getter_field(gm) if gm else '?')
                 else:
                     geom.append('?')
+        binpsd, evalkind = 'none', 'none'
+        if cls in SPECTRA:
+            _, bm = _find_method(classes, cls, '_get_bin_power_spectral_density')
+            binpsd = BINPSD.get(body_key(bm), 'unknown') if bm else 'unknown'
+            _, em = _find_method(classes, cls, 'evaluate')
+            evalkind = EVALKIND.get(body_key(em), 'unknown') if em else 'unknown'
         ops, params = ctor_ops(classes, cls)
-        table.append(dict(name=cls, isSpectrum=cls in SPECTRA, setters=setters, getters=getters,
+        table.append(dict(name=cls, isSpectrum=cls in SPECTRA, binPsd=binpsd, evaluate=evalkind, setters=setters, getters=getters,
                           rebuildReads=rebuild_reads, rebuildPositive=rebuild_pos, geometryReads=geom,
                           ctorArgs=params, ctor=ops, file=classes[cls]['file'], line=classes[cls]['line']))
     src = open(os.path.join(REPO, FILES['constants'])).read()
@@ -458,6 +488,8 @@ def emit(t):
         L.append('def %s : Cls where' % nm)
         L.append('  name := %s' % _s(k['name']))
         L.append('  isSpectrum := %s' % ('true' if k['isSpectrum'] else 'false'))
+        L.append('  binPsd := BinPsd.%s' % k['binPsd'])
+        L.append('  evaluate := EvalKind.%s' % k['evaluate'])
         L.append('  setters := [')
         rows = []
         for s in k['setters']:
